@@ -61,14 +61,14 @@ Qed.
 (** * Operations, once recorded, keep their identity *)
 Definition op_same (p p' : op) : Prop :=
   op_k p' = op_k p /\ op_a p' = op_a p /\ op_imm p' = op_imm p /\ op_w p' = op_w p
-  /\ (op_done p = true -> op_done p' = true).
+  /\ (op_done p = true -> op_done p' = true) /\ op_reg p' = op_reg p.
 Definition ops_stable (s s' : sys) : Prop :=
   forall o p, ops s o = Some p -> exists p', ops s' o = Some p' /\ op_same p p'.
 
 Lemma op_same_refl p : op_same p p.
 Proof. repeat split; auto. Qed.
 Lemma op_same_trans p1 p2 p3 : op_same p1 p2 -> op_same p2 p3 -> op_same p1 p3.
-Proof. intros (A & B & C & D & E) (A' & B' & C' & D' & E'). repeat split; try congruence. auto. Qed.
+Proof. intros (A & B & C & D & E & F) (A' & B' & C' & D' & E' & F'). repeat split; try congruence. auto. Qed.
 Lemma ops_stable_refl s : ops_stable s s.
 Proof. intros o p H. exists p. split; auto using op_same_refl. Qed.
 Lemma ops_stable_trans s1 s2 s3 : ops_stable s1 s2 -> ops_stable s2 s3 -> ops_stable s1 s3.
@@ -140,8 +140,23 @@ Ltac st s :=
       apply (ops_stable_trans s0 s1);
       [ | first [ apply stable_put_op_fresh; cbn; fresh_op s o
                 | eapply stable_put_op_upd; [ cbn; eassumption | repeat split; auto ] ] ]; st s
+  | |- ops_stable ?s0 (set_reg _ ?s1) => apply (ops_stable_trans s0 s1); [ | apply stable_same_ops; reflexivity ]; st s
+  | |- ops_stable ?s0 (set_rlock _ ?s1) => apply (ops_stable_trans s0 s1); [ | apply stable_same_ops; reflexivity ]; st s
+  | |- ops_stable ?s0 (set_rpend _ ?s1) => apply (ops_stable_trans s0 s1); [ | apply stable_same_ops; reflexivity ]; st s
   | |- ops_stable ?s0 (match ?c with _ => _ end) => destruct c eqn:?; st s
+  | |- ops_stable ?s0 ?v =>
+      match goal with
+      | H : adj_refs ?s1 _ _ = Acc v |- _ =>
+          apply (ops_stable_trans s0 s1); [ st s | apply stable_same_ops; exact (ops_adj_refs _ _ _ _ H) ]
+      | H : release_entry ?s1 _ = Acc v |- _ =>
+          apply (ops_stable_trans s0 s1); [ st s | apply stable_same_ops; exact (ops_release_entry _ _ _ H) ]
+      end
   end.
+
+Lemma stable_reg_ret s o p k ty r s' : ops s o = Some p -> reg_ret s o p k ty r = Acc s' -> ops_stable s s'.
+Proof.
+  intros Hp H. unfold reg_ret in H. inv_res H; subst s'; st s.
+Qed.
 
 Lemma step_ops s e s' : step s e = Acc s' -> ops_stable s s'.
 Proof.
@@ -152,6 +167,7 @@ Proof.
   all: try solve [ match goal with Hs : submit _ _ ?o _ _ _ _ _ _ _ _ = Acc _ |- _ =>
                      eapply stable_submit; [ | exact Hs ]; fresh_op s o end ].
   all: try solve [ eapply stable_teardown; eassumption ].
+  all: try solve [ eapply stable_reg_ret; eassumption ].
   all: try solve [ match goal with Hs : submit ?s1 _ ?o _ _ _ _ _ _ _ _ = Acc ?v0 |- ops_stable _ ?sf =>
                      apply (ops_stable_trans s s1); [ st s | ];
                      apply (ops_stable_trans s1 v0); [ eapply stable_submit; [ | exact Hs ]; cbn; fresh_op s o | ];
